@@ -78,10 +78,7 @@ Definition run_C02 (d : data) : data :=
       match as_list_of dec_token toks, as_list_of dec_macro env with
       | Some ts, Some en =>
           let lexed := tokenize (list_of_string text) in
-          let m := match lexed with
-                   | Some mts => enc_outcome (evaluate_for_platform en mts)
-                   | None => enc_outcome OOutOfFuel
-                   end in
+          let m := enc_outcome (evaluate_text en (list_of_string text)) in
           let l := match lexed with Some mts => of_bool (toks_eqb mts ts) | None => of_bool false end in
           let '(s, t) :=
             match ast with
